@@ -11,13 +11,14 @@ use crate::rm::decide::{Stage, Verdict};
 use crate::rm::lower;
 use crate::run::{finish, preflight, Ctx, Report, Tally, Tier};
 
-pub const NEUTRAL: [&str; 9] = [
+pub const NEUTRAL: [&str; 10] = [
     "long-inner-space-run",
     "name-case",
     "reorder-different-names",
     "outer-spaces",
     "double-inner-space",
     "add-unsigned-header",
+    "add-unsigned-near-requirement",
     "remove-unsigned-header",
     "alter-unsigned-header",
     "duplicate-unsigned-header",
@@ -38,6 +39,11 @@ pub const BINDING: [&str; 14] = [
     "tab-for-space",
     "append-to-value",
 ];
+
+/// Does the service's declaration make a header of this (lower-case) name one that has to be signed when present?
+fn required_by(reqs: &crate::model::Reqs, name: &str) -> bool {
+    reqs.always.iter().chain(reqs.if_req.iter()).any(|n| n.to_ascii_lowercase() == name) || reqs.prefixes.iter().any(|p| name.starts_with(&p.to_ascii_lowercase()))
+}
 
 fn is_signed(signed: &[String], name: &[u8]) -> bool {
     let l = lower(name);
@@ -172,9 +178,55 @@ fn child(kind: &str, r: &mut Rng, parent: &Case, signed: &[String]) -> Option<Ca
             };
             h[i].1 = nv.into_bytes();
         }
+        "add-unsigned-near-requirement" => {
+            // a name that is *almost* one the service declared — a proper prefix of a declared prefix, a declared prefix
+            // with another last letter, a declared name with a letter more or less — and is therefore not required
+            let reqs = &parent.cfg.reqs;
+            let mut cands: Vec<String> = Vec::new();
+            for p in &reqs.prefixes {
+                let p = p.to_ascii_lowercase();
+                for k in 1..p.len() {
+                    cands.push(p[..k].to_string());
+                }
+                if p.len() > 1 {
+                    cands.push(format!("{}q", &p[..p.len() - 1]));
+                    cands.push(p[1..].to_string());
+                }
+            }
+            for n in reqs.always.iter().chain(reqs.if_req.iter()) {
+                let n = n.to_ascii_lowercase();
+                cands.push(format!("{}x", n));
+                cands.push(format!("{}-", n));
+                cands.push(format!("x{}", n));
+                if n.len() > 1 {
+                    cands.push(n[..n.len() - 1].to_string());
+                    cands.push(n[1..].to_string());
+                }
+            }
+            cands.retain(|n| !n.is_empty() && n.bytes().all(|b| b.is_ascii_lowercase() || b.is_ascii_digit() || b == b'-') && !required_by(reqs, n) && free(n.as_bytes()));
+            if cands.is_empty() {
+                return None;
+            }
+            let mut name = r.pick(&cands).clone();
+            match r.below(3) {
+                0 => name = name.to_ascii_uppercase(),
+                1 => {
+                    let k = r.usize_below(name.len());
+                    name = format!("{}{}{}", &name[..k], name[k..k + 1].to_ascii_uppercase(), &name[k + 1..]);
+                }
+                _ => {}
+            }
+            let pos = r.usize_below(h.len() + 1);
+            let value = if r.chance(1, 4) {
+                Vec::new()
+            } else {
+                gen_header_value(r)
+            };
+            h.insert(pos, (name.into_bytes(), value));
+        }
         "add-unsigned-header" => {
             let name = format!("x-verif-unsigned-{}", r.below(4));
-            if signed.iter().any(|s| *s == name) {
+            if signed.iter().any(|s| *s == name) || required_by(&parent.cfg.reqs, &name) {
                 return None;
             }
             let pos = r.usize_below(h.len() + 1);
@@ -335,7 +387,12 @@ fn shard(seed: u64, shard: u64, n: u64) -> Tally {
         let mut r = Rng::keyed(seed, "C11", "parent", shard, i);
         // every option combination, form bodies included: with folding on, the header block that is signed
         // (content-type, content-length, …) must still be the one that arrived
-        let cfg = gen_cfg(&mut r);
+        let mut cfg = gen_cfg(&mut r);
+        if i % 2 == 1 {
+            // a service that declares required headers (all three kinds, any letter case, every container): "required"
+            // in the property text is relative to this declaration
+            cfg.reqs = crate::props::c05::gen_reqs(&mut r).0;
+        }
         let o = GenOpts {
             max_extra_headers: 8,
             ..Default::default()
@@ -464,7 +521,7 @@ pub fn run(tier: Tier) -> i32 {
     }
     let rep = Report {
         level: "exploration",
-        rule: "W-sign parents with up to 8 extra headers (visible ASCII, 0x80–0xFF, inner spaces, repeated names with 2–4 values) and random signed subsets; children by one wire-level change: neutral (name letter case, order between different names, outer spaces / longer inner space runs (up to 200 spaces) in signed values, unsigned-unrequired-unconsulted headers added / removed / altered / duplicated) — must stay accepted; binding (every line of a signed header removed — also when its value was empty or blank —, a byte / an extra line of a signed Host, Content-Type or token header, Host with or without a default port or trailing dot, a byte of a signed value, appended byte, swap of two values of one signed name, dropped or duplicated value, a space moved into a token, an inner space removed, TAB for space) — must be refused. Two oracles: the parent/child relation (model-free; for neutral children also the provider's call arguments and the returned identity must equal the parent's) and the reference header block. Non-trivial = neutral child accepted / binding child refused with the signature-mismatch class; distinct by case hash.".into(),
+        rule: "W-sign parents with up to 8 extra headers (visible ASCII, 0x80–0xFF, inner spaces, repeated names with 2–4 values) and random signed subsets; children by one wire-level change: neutral (name letter case, order between different names, outer spaces / longer inner space runs (up to 200 spaces) in signed values, unsigned-unrequired-unconsulted headers added / removed / altered / duplicated; every other parent is validated by a service that declares always-required, required-if-present and prefix requirements, and a header is added whose name is a near miss of a declared one: a proper prefix of a declared prefix, a declared name plus or minus a letter) — must stay accepted; binding (every line of a signed header removed — also when its value was empty or blank —, a byte / an extra line of a signed Host, Content-Type or token header, Host with or without a default port or trailing dot, a byte of a signed value, appended byte, swap of two values of one signed name, dropped or duplicated value, a space moved into a token, an inner space removed, TAB for space) — must be refused. Two oracles: the parent/child relation (model-free; for neutral children also the provider's call arguments and the returned identity must equal the parent's) and the reference header block. Non-trivial = neutral child accepted / binding child refused with the signature-mismatch class; distinct by case hash.".into(),
         assumptions: vec!["'spaces' means 0x20 exactly; TAB is an ordinary value byte (DESIGN §6)".into()],
         extra: J::obj().set("calibrated_vectors", J::i(pre.unwrap_or(0) as i64)),
     };
